@@ -304,6 +304,7 @@ type encOp struct {
 	us   []uint64 // packed
 	is   []int64
 	bs   []bool
+	fail bool     // nested: the nested marshal fails
 	// how the implementation is called
 	call func(e *csproto.Encoder) error
 }
@@ -331,6 +332,12 @@ func (o encOp) String() string {
 		return "raw " + fw.Hex(o.b)
 	case "maphdr":
 		return fmt.Sprintf("maphdr %d %d", o.tag, o.u)
+	case "nested":
+		body := fw.Hex(o.b)
+		if o.fail {
+			body = "fail"
+		}
+		return fmt.Sprintf("nested %d %d %d %s", o.tag, o.u, o.i, body)
 	}
 	panic("harness: unknown encoder op " + o.name)
 }
